@@ -1,4 +1,4 @@
-HOOK_COMMITS = []
+HOOK_COMMITS = ["54b21b4"]
 NOTES = ("Model-based verification with an explicit TLA+ specification (spec/): TwigText/TwigValues/TwigSem/TwigSyntax are the "
          "reference semantics and printer; MC_Cxx are the bounded models TLC checks and enumerates; Trace_Cxx validate recorded "
          "behaviour of the implementation. Properties not yet listed under checks are still being built; until their check is "
@@ -50,6 +50,12 @@ CHECKS = {
     "C19": _c("Every short string / list / typed slice / map x the filter chains of the property's equations; slice index rules exhaustively; "
               "TLC checks the equations (Laws) on the reference definitions.",
               "TLA+ reference filter definitions + Laws checked by TLC, spec-to-code replay through a value-dump filter", "DESIGN.md 6/C19"),
+    "C20": dict(level="model_checking",
+                text="AttrCache.tla has the memo explicitly (capacity, nondeterministic eviction victims, entries are resolutions re-applied to the "
+                     "object); TLC checks CacheUnobservable (lookup through the memo = Member) for every lookup history and victim choice and must "
+                     "find the counterexamples of the two named deviations. Histories are replayed against the real cache set to the model's "
+                     "capacity through the verif hook, and at production capacity with floods of fresh (type, name) pairs.",
+                ref="DESIGN.md 6/C20", note=_NOTE, technique="TLA+ memo model (CacheUnobservable) + TLC exhaustive/simulation, history replay at model capacity via hook"),
     "C17": _c("Corpus with a spy at every callback position; every single-fault placement, loader faults, unresolved names; 6 render variants.",
               "TLA+ Exec with fault schedule (Surfaces) + TLC fault enumeration, spec-to-code replay", "DESIGN.md 6/C17"),
 }
